@@ -174,6 +174,12 @@ func DecodeString(inp []byte, startIndex int) (str []byte, bytesRead int, err er
 		return nil, 0, ErrTypeMismatch
 	}
 
+	// NOTE: compare against the remaining length instead of adding,
+	// as the (attacker-controlled) data size can be as large as math.MaxInt64
+	if dataSize > len(inp)-dataStartIndex {
+		return nil, 0, ErrIncompleteInput
+	}
+
 	// single character special case
 	if dataSize == 1 && startIndex == dataStartIndex {
 		return []byte{inp[dataStartIndex]}, 1, nil
@@ -187,9 +193,6 @@ func DecodeString(inp []byte, startIndex int) (str []byte, bytesRead int, err er
 
 	// collect and return string
 	dataEndIndex := dataStartIndex + dataSize
-	if dataEndIndex > len(inp) {
-		return nil, 0, ErrIncompleteInput
-	}
 
 	return inp[dataStartIndex:dataEndIndex], dataEndIndex - startIndex, nil
 }
@@ -215,7 +218,9 @@ func DecodeList(inp []byte, startIndex int) (encodedItems [][]byte, bytesRead in
 		return retList, 1, nil
 	}
 
-	if listDataSize+dataStartIndex > len(inp) {
+	// NOTE: compare against the remaining length instead of adding,
+	// as the (attacker-controlled) list data size can be as large as math.MaxInt64
+	if listDataSize > len(inp)-dataStartIndex {
 		return nil, 0, ErrIncompleteInput
 	}
 
@@ -228,10 +233,10 @@ func DecodeList(inp []byte, startIndex int) (encodedItems [][]byte, bytesRead in
 			return nil, 0, err
 		}
 		// collect encoded item
-		itemEndIndex = itemDataStartIndex + itemSize
-		if itemEndIndex > len(inp) {
+		if itemSize > len(inp)-itemDataStartIndex {
 			return nil, 0, ErrIncompleteInput
 		}
+		itemEndIndex = itemDataStartIndex + itemSize
 		retList = append(retList, inp[itemStartIndex:itemEndIndex])
 		dataBytesRead += itemEndIndex - itemStartIndex
 		itemStartIndex = itemEndIndex
